@@ -286,17 +286,36 @@ def carried_flags(ctx: Ctx, rep: Report, rid: str = "R17.5", fixture: bool = Fal
                     rep.violation(f.qualname, f"self.{fl} ... {snippet(sets[0], 30)}", f"the method returns early when self.{fl} is set and sets it itself after looking at `{snippet(nested[0], 30)}`: the nested object can change without this object noticing, and the next call answers from the flag", where(f, sets[0]), inp="ace.ungroup_ports(); ace.dstport.items = [80, 443]; ace.ungroup_ports()")
     # "same value as last time" shortcut of a setter: the value equals what is stored, but the object need not be in the
     # state that value produced any more (its items were edited in place since)
+    def owns_nested(cls_) -> bool:
+        # the class, or a class that inherits the setter, keeps a list of members or an object of the package in an attribute
+        for c_ in ctx.prog.classes.values():
+            if cls_ not in c_.mro:
+                continue
+            for g in c_.all_funcs():
+                for x in own_nodes(g.node):
+                    if isinstance(x, (ast.Assign, ast.AnnAssign)) and x.value is not None:
+                        for t in (x.targets if isinstance(x, ast.Assign) else [x.target]):
+                            if isinstance(t, ast.Attribute) and src(t.value) == "self":
+                                if t.attr.lstrip("_") == "items" or isinstance(x.value, (ast.List, ast.ListComp)):
+                                    return True
+                                if isinstance(x.value, ast.Call) and isinstance(x.value.func, ast.Name) and x.value.func.id in ctx.prog.classes:
+                                    return True
+        return False
+
     for cls in ctx.prog.classes.values():
         for f in cls.setters.values():
-            if len(f.params) < 2:
+            if len(f.params) < 2 or not owns_nested(cls):
                 continue
             p_ = f.params[1]
             for x in own_nodes(f.node):
                 if isinstance(x, ast.If) and x.body and isinstance(x.body[-1], ast.Return):
                     for c in ast.walk(x.test):
-                        if isinstance(c, ast.Compare) and len(c.ops) == 1 and isinstance(c.ops[0], ast.Eq):
+                        if isinstance(c, ast.Compare) and len(c.ops) == 1 and isinstance(c.ops[0], (ast.Eq, ast.Is)):
                             sides = [c.left, c.comparators[0]]
-                            if any(isinstance(s_, ast.Name) and s_.id == p_ for s_ in sides) and any(isinstance(s_, ast.Attribute) and src(s_.value) == "self" for s_ in sides):
+                            # the new value, as given or converted (`bool(v)`, `str(v)`, `h.init_x(v)`), against a stored one
+                            has_param = lambda s_: any(isinstance(z, ast.Name) and z.id == p_ for z in ast.walk(s_))  # noqa: E731
+                            has_self = lambda s_: any(isinstance(z, ast.Attribute) and src(z.value) == "self" for z in ast.walk(s_))  # noqa: E731
+                            if any(has_param(s_) and not has_self(s_) for s_ in sides) and any(has_self(s_) and not has_param(s_) for s_ in sides):
                                 hits += 1
                                 rep.violation(f.qualname, snippet(x.test, 60), "the setter does nothing when it is given the value it stored last time: what that value once produced (parsed items, derived fields) may have been changed in place since, and is not rebuilt - the answers from the flag of 'already done' are stale", where(f, x), inp="g = AddrGroup(text); g.items.pop(); g.line = text  # nothing is parsed")
     if not fixture:
